@@ -95,11 +95,15 @@ def render_cb(prog, cbid, indent="    "):
     )
 
 
+def pyname(prog):
+    return prog.get("pyname") or prog["name"]
+
+
 def render_model(prog):
     m = prog.get("model") or {"kind": "attr"}
     kind = m.get("kind", "attr")
     field = m.get("field", "state")
-    name = prog["name"] + "_model"
+    name = pyname(prog) + "_model"
     lines = []
     base = "object"
     if kind == "mixin":
@@ -131,7 +135,7 @@ def render_model(prog):
         )
     elif kind == "mixin":
         body.append(
-            f"    state_machine_name = {prog['module'] + '.' + prog['name']!r}\n"
+            f"    state_machine_name = {prog['module'] + '.' + pyname(prog)!r}\n"
             f"    state_field_name = {field!r}\n"
             f"    bind_events_as_methods = {bool(m.get('bind'))!r}\n"
             f"    def __init__(self):\n        self.{field} = None\n        super().__init__()\n"
@@ -146,7 +150,7 @@ def render_model(prog):
 
 
 def render_listener(prog, role):
-    name = prog["name"] + "_" + role
+    name = pyname(prog) + "_" + role
     body = []
     for cbid in sorted(prog["cbs"]):
         if cbid.startswith(role + "."):
@@ -179,7 +183,7 @@ def render_transition(prog, t, assign=None):
 def render_machine(prog, base_name=None):
     lines = []
     base = base_name or "StateMachine"
-    lines.append(f"class {prog['name']}({base}):")
+    lines.append(f"class {pyname(prog)}({base}):")
     lines.append("    _sim_is_machine = True")
     for s in prog["states"]:
         if s.get("inherited"):
